@@ -9,6 +9,7 @@ import (
 	"fmt"
 	"net/http"
 	"net/http/httptest"
+	"sort"
 	"strconv"
 	"strings"
 	"sync"
@@ -103,7 +104,7 @@ func (s *Stub) handle(w http.ResponseWriter, r *http.Request) {
 			return
 		}
 		w.Header().Set("Content-Type", "application/json")
-		json.NewEncoder(w).Encode(corev1.Namespace{TypeMeta: metav1.TypeMeta{Kind: "Namespace", APIVersion: "v1"}, ObjectMeta: metav1.ObjectMeta{Name: name, Labels: ls}})
+		json.NewEncoder(w).Encode(corev1.Namespace{TypeMeta: metav1.TypeMeta{Kind: "Namespace", APIVersion: "v1"}, ObjectMeta: metav1.ObjectMeta{Name: name, Labels: ls, UID: "ns-uid", ResourceVersion: labelsRV(ls)}})
 		return
 	}
 	if len(parts) == 5 && parts[4] == "pods" {
@@ -144,3 +145,19 @@ func (s *Stub) handle(w http.ResponseWriter, r *http.Request) {
 
 // URL is the base URL of the stub.
 func (s *Stub) URL() string { return s.srv.URL }
+
+// labelsRV: a resourceVersion that changes exactly when the labels change.
+func labelsRV(ls map[string]string) string {
+	keys := make([]string, 0, len(ls))
+	for k := range ls {
+		keys = append(keys, k)
+	}
+	sort.Strings(keys)
+	h := uint32(2166136261)
+	for _, k := range keys {
+		for _, c := range []byte(k + "=" + ls[k] + ";") {
+			h = (h ^ uint32(c)) * 16777619
+		}
+	}
+	return fmt.Sprint(1000 + h%100000)
+}
